@@ -13,7 +13,7 @@ import (
 var actionBits = map[string]uint32{
 	"mapping_up": 1 << 0, "mapping_down": 1 << 1, "octave_up": 1 << 2, "octave_down": 1 << 3,
 	"semitone_up": 1 << 4, "semitone_down": 1 << 5, "channel_up": 1 << 6, "channel_down": 1 << 7,
-	"multinote": 1 << 8, "panic": 1 << 9, "cc_learning": 1 << 10,
+	"multinote": 1 << 8, "panic": 1 << 9, "cc_learning": 1 << 10, "exit": 1 << 11,
 }
 
 var pairs = [][2]string{{"mapping_up", "mapping_down"}, {"octave_up", "octave_down"}, {"semitone_up", "semitone_down"}, {"channel_up", "channel_down"}}
